@@ -266,20 +266,6 @@ Proof.
   intros s0 l s1 z _ I Pl H. eapply nofault_step; eauto.
 Qed.
 
-Lemma nofault2_step c s l s' z :
-  faulty s = [] -> wf_label c l -> step c s l = Some (s', z) -> faulty s' = [].
-Proof.
-  intros NF2 W H. revert W. unfold wf_label. revert H.
-  step_cases; intros W; try contradiction; try assumption; try discriminate; auto.
-Qed.
-
-Lemma reach_nofault2 (P : label -> Prop) c s :
-  (forall l, P l -> wf_label c l) -> reachP P c s -> faulty s = [].
-Proof.
-  intros HP R. revert s R. apply (reachP_ind P c (fun s => faulty s = [])); [reflexivity|].
-  intros s0 l s1 z _ I Pl H. eapply nofault2_step; eauto.
-Qed.
-
 Lemma sizeinv_step c s l s' z :
   sizeinv c s -> corrupt s = [] -> wf_label c l -> step c s l = Some (s', z) -> sizeinv c s'.
 Proof.
